@@ -373,6 +373,9 @@ func (w *cworld) applyExt(op extOp) {
 			return
 		}
 		refs := A{J{"apiVersion": "v1", "kind": "Other", "name": "other", "uid": "uid-other", "controller": true}}
+		if op.Data["orphan"] == true {
+			refs = A{} // nobody controls it: an orphan that names the parent as a plain (garbage-collection) owner
+		}
 		pav, _ := op.Data["apiVersion"].(string)
 		pk, _ := op.Data["kind"].(string)
 		pns, _ := op.Data["namespace"].(string)
